@@ -46,7 +46,7 @@ package bls
 //@
 //@ // preconditions = the documented programming errors the function panics on (caller-side contract)
 //@ func (*Verifier).AggregateSignatures
-//@   props C10 C09
+//@   props C10 C09 C01
 //@   requires curveOK() && len(signers) >= 2 && len(signatures) == len(signers) && v.parties2EvalPoints != nil
 //@   requires [known]    forall i int :: { signers[i] } 0 <= i && i < len(signers) ==> signers[i] in v.parties2EvalPoints
 //@   requires [distinct] forall i int, j int :: 0 <= i && i < j && j < len(signers) ==> v.parties2EvalPoints[signers[i]] != v.parties2EvalPoints[signers[j]]
@@ -54,30 +54,55 @@ package bls
 //@   // each share is combined under the evaluation point of its own signer (C09)
 //@   on-call localAggregateSignatures(sg, pts):
 //@     assert [own-index] len(pts) == len(signers) && forall m int :: 0 <= m && m < len(signers) ==> pts[m] == v.parties2EvalPoints[signers[m]]
+//@   // the result is the Lagrange combination (C18: aggG1) of the parsed signatures under those points
+//@   at return:
+//@     assert [aggregate] result.1 == nil ==> string(result.0) == g1bytes(aggG1(vals(sigs), vals(evalPoints), len(signers), g1sub(val(c.GenG1), val(c.GenG1)), len(signers))) &&
+//@                        forall m int :: { sigs[m] } 0 <= m && m < len(signers) ==> g1valid(signatures[m]) && val(sigs[m]) == g1ofbytes(signatures[m])
 //@   loop 0: invariant [parsed] len(sigs) == len(signatures) && 0 <= i && forall m int :: 0 <= m && m < i ==> sigs[m] != nil
+//@   loop 0: invariant [parsed-from] forall m int :: { sigs[m] } 0 <= m && m < i ==> g1valid(signatures[m]) && val(sigs[m]) == g1ofbytes(signatures[m])
+//@   loop 1: invariant [parsed-from] forall m int :: { sigs[m] } 0 <= m && m < len(sigs) ==> g1valid(signatures[m]) && val(sigs[m]) == g1ofbytes(signatures[m])
 //@   loop 1: invariant [points] len(evalPoints) == len(signers) && (forall m int :: 0 <= m && m < len(sigs) ==> sigs[m] != nil) &&
 //@                              forall m int :: 0 <= m && m <= rangeindex ==> evalPoints[m] == v.parties2EvalPoints[signers[m]]
 //@
+// ---- signing algebra (C01, C09): what is signed, what is checked (the pairing equation e(-g2, sig) * e(pk, H(m)) = 1) --------
+//@ // the package initialiser makes negG2 the inverse of the generator: (g2 - g2) - g2
+//@ func init#1
+//@   props C01
+//@   requires c != nil && c.GenG2 != nil
+//@   ensures [neg-generator] negG2 != nil && val(negG2) == g2sub(g2sub(old(val(c.GenG2)), old(val(c.GenG2))), old(val(c.GenG2)))
+//@
+//@ spec macro pairingHolds(pk G2, d string, sig G1) bool = isunity(fexp(pair2(val(negG2), sig, pk, g1hash(d))))
+//@
 //@ func (*Verifier).Verify
-//@   props C10 C09
+//@   props C10 C09 C01
 //@   requires curveOK() && v.tPK != nil
 //@   modifies nothing
+//@   ensures [equation] (result == nil) == (g1valid(signature) && pairingHolds(val(v.tPK), string(digest), g1ofbytes(signature)))
 //@
 //@ func localVerify
-//@   props C09
+//@   props C09 C01
 //@   requires curveOK() && pk != nil && sig != nil
 //@   modifies nothing
+//@   ensures [equation] (result == nil) == pairingHolds(val(pk), string(digest), val(sig))
 //@
 //@ func localSign
-//@   props C09
+//@   props C09 C01
 //@   requires curveOK() && sk != nil
 //@   modifies nothing
-//@   ensures result != nil
+//@   ensures [share-signature] result != nil && val(result) == g1mul(g1hash(digest), val(sk))
 //@
 //@ func (*TBLS).Sign
-//@   props C09
+//@   props C09 C01
 //@   requires curveOK() && tbls.sk != nil
 //@   modifies nothing
+//@   ensures [share-signature] result.1 == nil && string(result.0) == g1bytes(g1mul(g1hash(msgHash), val(tbls.sk)))
+//@
+//@ func localCreatePublicKeys
+//@   props C01
+//@   requires curveOK() && forall m int :: 0 <= m && m < len(shares) ==> shares[m] != nil
+//@   modifies nothing
+//@   ensures [keys-of-shares] len(result) == len(shares) && forall m int :: { result[m] } 0 <= m && m < len(shares) ==> result[m] != nil && val(result[m]) == g2mul(old(val(c.GenG2)), old(val(shares[m])))
+//@   loop 0: invariant len(publicKeys) == len(shares) && 0 <= i && forall m int :: { publicKeys[m] } 0 <= m && m < i ==> publicKeys[m] != nil && val(publicKeys[m]) == g2mul(old(val(c.GenG2)), old(val(shares[m])))
 
 // ---- Lagrange aggregation: safety level (C10); the algebraic refinement is in the C18 section -----------------------
 
